@@ -92,3 +92,14 @@ Proof.
   - cbn [forM omap]. replace lo with hi by lia. apply Hexit.
   - cbn [forM]. rewrite Hstep by lia. destruct (body lo s) as [s'|]; [|reflexivity]. apply IH; lia.
 Qed.
+
+(* the pivot search of a_real_plu returns a row index below n *)
+From LibaV Require Import C08.FactorDefs.
+Lemma maxstep_index {T} (O : NumOps T) (n i : nat) (A : list T) : forall cnt lo mx ax mi mx' ax' mi',
+  forM lo cnt (plu_maxstep O n i A) (mx, ax, mi) = Some (mx', ax', mi') -> lo + cnt <= n -> mi < n -> mi' < n.
+Proof.
+  induction cnt as [|cnt IH]; intros lo mx ax mi mx' ax' mi' H Hl Hm; cbn [forM] in H.
+  - injection H as _ _ <-. exact Hm.
+  - unfold plu_maxstep at 1 in H. destruct (rd A (n * lo + i)) as [v|]; [|discriminate H].
+    destruct (ltb O ax (abs O v)); apply (IH _ _ _ _ _ _ _ H); lia.
+Qed.
